@@ -475,7 +475,8 @@ int func_gencode_freevars_freevar(func * func_value, symtab * stab, freevar * fr
         else if (entry->type == SYMTAB_FUNC && freevar_value->orig.type == FREEVAR_FUNC &&
             entry->func_value == freevar_value->orig.func_value)
         {
-            freevar_value->src.type = FREEVAR_FUNC;
+            /* the entry a function adds for itself is not a slot of its frame */
+            freevar_value->src.type = (entry->func_value == func_value) ? FREEVAR_FUNC_SELF : FREEVAR_FUNC;
             freevar_value->src.func_value = entry->func_value;
         }
         else if (entry->type == SYMTAB_RECORD ||
